@@ -74,6 +74,7 @@ def chan_forms(rng, s):
              ('list-pos', pos, pos), ('list-name', [s.channels[q] for q in pos], pos),
              ('single-list', [s.channels[p]], [p]),
              ('mixed', [s.channels[q] if i % 2 else q for i, q in enumerate(pos)], pos)]
+    forms.append(('list-neg', [q - D if i % 2 == 0 else q for i, q in enumerate(pos)], pos))
     dpos = pos + [pos[0]] + ([pos[-1]] if len(pos) > 1 else [])
     forms.append(('list-duplicates', [s.channels[q] if i % 2 else q for i, q in enumerate(dpos)], dpos))
     # other legal spellings of the list forms (tuple / ndarray / NumPy integers and strings): a refusal of one of
